@@ -18,7 +18,11 @@ GenInit == MCInit \cup {
   [q |-> <<Q(n255, TA)>>, an |-> <<R(n255, TCNAME, c63 \o ab, <<>>, <<>>)>>, ns |-> <<>>, ar |-> <<R(c63 \o ab, TA, <<>>, <<>>, <<8,8,8,8>>)>>],
   [q |-> <<Q(root, TNS)>>, an |-> <<R(root, TNS, ab, <<>>, <<>>), R(ab, TMX, root, <<>>, <<0>>)>>, ns |-> <<>>, ar |-> <<R(ab, TA, <<>>, <<>>, <<10,0,0,1>>)>>],
   [q |-> <<Q(l34, TPTR)>>, an |-> <<R(l34, TPTR, ab, <<>>, <<>>)>>, ns |-> <<R(ab, TNS, c63, <<>>, <<>>)>>, ar |-> <<>>] }
-GenNew == MCNew \cup { R(root, TNS, ab, <<>>, <<>>), R(ab, TMX, root, <<>>, <<0>>), R(b, TSOA, root, ab, Z20), R(a, TCNAME, root, <<>>, <<>>),
+\* record types libtins has no typed view for (MB 7, MG 8, MR 9, an unassigned one): their data are opaque octets - also when they
+\* look like a name or contain the octets of a compression pointer
+GenNew == MCNew \cup { R(a, 7, <<>>, <<>>, <<1, 97, 192, 12>>), R(ab, 8, <<>>, <<>>, <<192, 12>>), R(b, 9, <<>>, <<>>, <<3, 119, 119, 119, 0>>),
+                       R(ab, 65280, <<>>, <<>>, <<192, 192, 0, 5>>),
+                       R(root, TNS, ab, <<>>, <<>>), R(ab, TMX, root, <<>>, <<0>>), R(b, TSOA, root, ab, Z20), R(a, TCNAME, root, <<>>, <<>>),
                        R(l34, TPTR, n255, <<>>, <<>>), R(c63, TTXT, <<>>, <<>>, <<2, 0, 255>>), R(ab, TSOA, b, ab, Z20),
                        R(n127, TNS, a, <<>>, <<>>), R(b, TAAAA, <<>>, <<>>, [i \in 1..16 |-> i * 3]) }
 GInit == \E m \in GenInit, c \in BOOLEAN : /\ w = EncMsg(m, c) /\ abs = m /\ edits = 0 /\ hist = <<>> /\ comp = c /\ init0 = m
